@@ -13,6 +13,7 @@ package main
 
 import (
 	"bytes"
+	"sort"
 	"context"
 	"encoding/hex"
 	"fmt"
@@ -105,6 +106,13 @@ func c19TempFile(content []byte) string {
 // c19Value renders what a goal delivered.
 func c19Value(vm *engine.VM, kind string, v engine.Term) string {
 	switch kind {
+	case "gk", "pk": // get_code/peek_code: printed as the character
+		if n, ok := v.(engine.Integer); ok {
+			if n == -1 {
+				return "eof"
+			}
+			return fmt.Sprintf("c%x", int64(n))
+		}
 	case "gc", "pc":
 		if a, ok := v.(engine.Atom); ok {
 			s := a.String()
@@ -199,6 +207,14 @@ func c19Goal(op string, s engine.Term, x engine.Term) engine.Term {
 		return compound("peek_char", s, x)
 	case "PC":
 		return compound("peek_char", x)
+	case "gk":
+		return compound("get_code", s, x)
+	case "GK":
+		return compound("get_code", x)
+	case "pk":
+		return compound("peek_code", s, x)
+	case "PK":
+		return compound("peek_code", x)
 	case "gb":
 		return compound("get_byte", s, x)
 	case "GB":
@@ -342,6 +358,7 @@ func runC19Once(payload string) string {
 
 	var out []string
 	sawEOF, multi, afterPeek, errs, compoundRead := 0, 0, 0, 0, 0
+	failedRead, afterFailedRead := 0, 0
 	for _, q := range queries {
 		var goals []engine.Term
 		for _, op := range q {
@@ -356,6 +373,12 @@ func runC19Once(payload string) string {
 			}
 			if strings.HasPrefix(t, "c") && len(t) > 3 {
 				multi++
+			}
+			if failedRead > 0 && t != "_" && lop != "pp" && lop != "pe" && lop != "ae" {
+				afterFailedRead++ // an input goal after a read_term that failed with a syntax error
+			}
+			if t == "!syn" {
+				failedRead++
 			}
 			if strings.HasPrefix(t, "!") {
 				errs++
@@ -374,7 +397,7 @@ func runC19Once(payload string) string {
 		out = append(out, strings.Join(toks, " "))
 	}
 	nt := 0
-	if afterPeek > 0 || sawEOF > 1 {
+	if afterPeek > 0 || sawEOF > 1 || afterFailedRead > 0 {
 		nt = 1
 	}
 	b := func(n int) int {
@@ -383,8 +406,8 @@ func runC19Once(payload string) string {
 		}
 		return 0
 	}
-	return strings.Join(out, " ; ") + fmt.Sprintf(" ### nt=%d rd=%s ty=%s eof=%s queries=%d after_peek=%d saw_eof=%d multibyte=%d errors=%d compound_read=%d",
-		nt, kv["rd"], kv["ty"], kv["eof"], bucket_c19(len(queries)-drain), b(afterPeek), bucket_c19(sawEOF), b(multi), b(errs), b(compoundRead))
+	return strings.Join(out, " ; ") + fmt.Sprintf(" ### nt=%d rd=%s ty=%s eof=%s queries=%d after_peek=%d saw_eof=%d multibyte=%d errors=%d compound_read=%d failed_read=%d after_failed_read=%d",
+		nt, kv["rd"], kv["ty"], kv["eof"], bucket_c19(len(queries)-drain), b(afterPeek), bucket_c19(sawEOF), b(multi), b(errs), b(compoundRead), b(failedRead), b(afterFailedRead))
 }
 
 func bucket_c19(n int) int {
@@ -566,12 +589,26 @@ func c19SkipLayout(b []byte) int {
 	return -1
 }
 
-func c19InFragment(src []byte, binary bool, eof string, queries [][]string, drain int, spans []c19Span) bool {
+// c19InFragment simulates the cursor over the ops.  Every read_term is probed on the real reader alone
+// (engine.VerifReadProbe: lexer+parser over a counting rune reader, no Stream, no ReadTerm):
+//   - it delivers a term: the case is generated only if the clause is in the fragment the model's
+//     scanner covers (an atomic clause, or the cursor stands in front of a generated clause);
+//   - it fails (syntax error) or reports io.EOF inside a clause: the measured read goes into the table
+//     of the case header (tab=off:bytes:kind), the model's reader follows the table.
+// Returns false if the case is outside the fragment, else the table entries.
+func c19InFragment(vm *engine.VM, src []byte, binary bool, eof string, queries [][]string, drain int, spans []c19Span) (bool, []string) {
 	idx, delivered := 0, false
+	tab := map[string]bool{}
 	// runs one conjunction; false = a read_term outside the fragment
 	query := func(q []string) bool {
 		for _, op := range q {
 			op = strings.ToLower(op)
+			switch op {
+			case "gk":
+				op = "gc"
+			case "pk":
+				op = "pc"
+			}
 			if op == "ae" || op == "pp" || op == "pe" {
 				continue
 			}
@@ -610,8 +647,28 @@ func c19InFragment(src []byte, binary bool, eof string, queries [][]string, drai
 					idx++
 				}
 			case "rt":
+				outcome, _, pulled, last, sawEOF := engine.VerifReadProbe(vm, string(src[idx:]))
+				switch outcome {
+				case "syntax":
+					if sawEOF {
+						tab[fmt.Sprintf("%d:%d:S", idx, pulled)] = true
+						idx += pulled // the end of the input was only looked at: not delivered
+					} else {
+						tab[fmt.Sprintf("%d:%d:s", idx, pulled)] = true
+						idx += pulled - last
+					}
+					return true // the error ends the conjunction
+				case "eof":
+					if c19SkipLayout(src[idx:]) != -1 {
+						// the input ends inside a clause and the reader says io.EOF (known finding C19-K1)
+						tab[fmt.Sprintf("%d:%d:e", idx, pulled)] = true
+					}
+					idx += pulled
+					delivered = true
+					continue
+				}
 				kind, n := c19ScanClause(src[idx:])
-				if kind == "syn" {
+				if kind != "term" {
 					// not an atomic clause: in the fragment only if the cursor is in front of a generated clause
 					kind = ""
 					if at := c19SkipLayout(src[idx:]); at >= 0 {
@@ -629,25 +686,25 @@ func c19InFragment(src []byte, binary bool, eof string, queries [][]string, drai
 						}
 					}
 				}
-				switch kind {
-				case "":
+				if kind != "term" || n != pulled-last {
 					return false
-				case "eof":
-					idx += n
-					delivered = true
-				default:
-					idx += n
 				}
+				idx += n
 			}
 		}
 		return true
 	}
 	for _, q := range queries {
 		if !query(q) {
-			return false
+			return false, nil
 		}
 	}
-	return true
+	var entries []string
+	for e := range tab {
+		entries = append(entries, e)
+	}
+	sort.Strings(entries)
+	return true, entries
 }
 
 // ---------------------------------------------------------------------------
@@ -766,10 +823,27 @@ func genC19Clause(r *rand.Rand, ci *c19Interp) string {
 	return genC19Token(r)
 }
 
-func genC19Source(r *rand.Rand, ci *c19Interp) ([]byte, []c19Span) {
+// clauses that are not well-formed: unbalanced brackets, two operators / two operands in a row, an operator
+// without operand, illegal characters, bad escapes, a missing end token; and inputs that end inside a clause
+var c19BadClauses = []string{"foo(.", "foo bar", "foo bar.", "a :- .", "a + * b.", "f(a.", "[a.", "f(a)).", "'a\\qb'.",
+	"a $$ b.", "a ` b.", "1.e b.", "X Y.", "foo(a,).", ") .", ")", ".", "f(a b).", "1 2.", "foo 1.", "\"ab\\q\".",
+	"a = = b.", "- - .", "{a.", "[a|b|c].", "f(,).", "a é😀.", "é あ", "a :- b,", "0'", "foo(", "'abc", "a :- b", "foo", "f(a)"}
+
+// what follows the bad clause: nothing (the error is at the last byte), layout, comments, other clauses
+var c19BadFollow = []string{"", "", " ", "\n", "%c\n", " % c", "\nbar.\n", "%zap.\nbar.\n", " bar. baz.", "/* c */ b.", ". c.", " .\n"}
+
+func genC19Source(r *rand.Rand, ci *c19Interp) ([]byte, []c19Span, bool) {
 	var sb strings.Builder
 	var spans []c19Span
-	switch k := r.Intn(20); {
+	bad := false
+	switch k := r.Intn(25); {
+	case k >= 20: // a clause that is not well-formed, possibly behind a good one
+		bad = true
+		if r.Intn(3) == 0 {
+			sb.WriteString(genC19Token(r) + "." + pick(r, c19Layout[:7]))
+		}
+		sb.WriteString(pick(r, c19BadClauses))
+		sb.WriteString(pick(r, c19BadFollow))
 	case k < 12: // clauses
 		if r.Intn(3) == 0 {
 			sb.WriteString(pick(r, c19Layout))
@@ -811,20 +885,24 @@ func genC19Source(r *rand.Rand, ci *c19Interp) ([]byte, []c19Span) {
 			sb.WriteString(pick(r, append(c19Invalid, c19Chars...)))
 		}
 	}
-	return []byte(sb.String()), spans
+	return []byte(sb.String()), spans, bad
 }
 
-var c19TextOps = []string{"gc", "gc", "gc", "pc", "pc", "rt", "rt", "ae", "pp", "pe", "GC", "PC", "RT", "AE"}
+var c19TextOps = []string{"gc", "gc", "gc", "pc", "pc", "rt", "rt", "ae", "pp", "pe", "GC", "PC", "RT", "AE", "gk", "pk", "GK", "PK"}
 var c19BinOps = []string{"gb", "gb", "gb", "pb", "pb", "ae", "pp", "pe", "GB", "PB", "AE"}
 var c19Readers = []string{"str", "one", "k3", "eofd", "file", "file"}
 var c19Actions = []string{"error", "eof_code", "reset"}
 
-func c19Header(src []byte, rd string, binary bool, eof string, drain int) string {
+func c19Header(src []byte, rd string, binary bool, eof string, drain int, tab []string) string {
 	ty := "t"
 	if binary {
 		ty = "b"
 	}
-	return fmt.Sprintf("src=%s rd=%s ty=%s eof=%s drain=%d", hex.EncodeToString(src), rd, ty, eof, drain)
+	h := fmt.Sprintf("src=%s rd=%s ty=%s eof=%s drain=%d", hex.EncodeToString(src), rd, ty, eof, drain)
+	if len(tab) > 0 {
+		h += " tab=" + strings.Join(tab, ",")
+	}
+	return h
 }
 
 func c19Render(queries [][]string) string {
@@ -841,21 +919,29 @@ func genC19(r *rand.Rand, n int, tier string) []string {
 	defer c19Pool.Put(ci)
 	var spans []c19Span
 	emitSp := func(src []byte, rd string, binary bool, eof string, drain int, queries [][]string, spans []c19Span) {
-		if !c19InFragment(src, binary, eof, queries, drain, spans) {
+		ok, tab := c19InFragment(&ci.i.VM, src, binary, eof, queries, drain, spans)
+		if !ok {
 			return
 		}
-		out = append(out, c19Header(src, rd, binary, eof, drain)+" | "+c19Render(queries))
+		out = append(out, c19Header(src, rd, binary, eof, drain, tab)+" | "+c19Render(queries))
 	}
 	emit := func(src []byte, rd string, binary bool, eof string, drain int, queries [][]string) {
 		emitSp(src, rd, binary, eof, drain, queries, spans)
 	}
+	// every kind of failing read followed by every operation (quick: one, thorough: two operations)
+	genC19BadExhaustive(emitSp, tier == "thorough")
 	if tier == "thorough" {
 		genC19Exhaustive(emitSp)
 	}
-	for len(out) < n {
+	base := len(out) // n random cases on top of the enumerated ones
+	for len(out) < base+n {
 		var src []byte
-		src, spans = genC19Source(r, ci)
+		var bad bool
+		src, spans, bad = genC19Source(r, ci)
 		binary := r.Intn(4) == 0
+		if bad {
+			binary = r.Intn(12) == 0
+		}
 		rd, eof := pick(r, c19Readers), pick(r, c19Actions)
 		ops := c19TextOps
 		if binary {
@@ -872,6 +958,14 @@ func genC19(r *rand.Rand, n int, tier string) []string {
 				}
 			} else {
 				seq[i] = pick(r, ops)
+			}
+		}
+		if bad && !binary && r.Intn(2) == 0 {
+			// make sure the read fails early in the sequence and something follows it
+			seq[0] = pick(r, []string{"rt", "rt", "RT"})
+			if k == 1 {
+				seq = append(seq, pick(r, ops))
+				k = 2
 			}
 		}
 		drain := 0
@@ -907,6 +1001,40 @@ func genC19(r *rand.Rand, n int, tier string) []string {
 		}
 	}
 	return out
+}
+
+// genC19BadExhaustive: read_term on every clause that is not well-formed, ending at the last byte / followed by
+// layout, a comment, another clause, on a file with every eof_action (and two host readers), followed by every
+// operation (thorough: by every two operations), as one conjunction and as separate queries.
+func genC19BadExhaustive(emit func(src []byte, rd string, binary bool, eof string, drain int, queries [][]string, spans []c19Span), triples bool) {
+	ops := []string{"gc", "pc", "gk", "pk", "gb", "pb", "rt", "ae", "pp", "pe"}
+	follows := []string{"", "\n", "%zap.\nbar.\n", " bar."}
+	type rdAct struct{ rd, eof string }
+	cfgs := []rdAct{{"file", "error"}, {"file", "eof_code"}, {"file", "reset"}, {"eofd", "error"}, {"one", "reset"}}
+	n := 0
+	for _, bc := range c19BadClauses {
+		for fi, fo := range follows {
+			src := []byte(bc + fo)
+			for ci, c := range cfgs {
+				// quick: each source with one reader/eof_action in turn (all combinations over the run of sources)
+				if !triples && (n+fi+ci)%len(cfgs) != 0 {
+					continue
+				}
+				for _, x := range ops {
+					emit(src, c.rd, false, c.eof, 2, [][]string{{"rt", x}}, nil)
+					emit(src, c.rd, false, c.eof, 2, [][]string{{"rt"}, {x}}, nil)
+					if !triples || c.rd != "file" {
+						continue
+					}
+					for _, y := range ops {
+						emit(src, c.rd, false, c.eof, 2, [][]string{{"rt"}, {x, y}}, nil)
+						emit(src, c.rd, false, c.eof, 2, [][]string{{"rt"}, {x}, {y}}, nil)
+					}
+				}
+			}
+		}
+		n++
+	}
 }
 
 // genC19Exhaustive: every sequence of length ≤ 5 over seven ops on fixed sources, each as one conjunction
